@@ -433,17 +433,23 @@ pub fn subst_bytes(v: &mut V, old: &[u8], new: &[u8]) {
 
 /// the command level that is active after the first `upto` units of a line
 pub fn level_at<'a>(spec: &'a OptSpec, units: &[U], upto: usize) -> &'a OptSpec {
-    // follow the command names left of `upto`
-    let mut cur = spec;
+    // follow the command names left of `upto`; a chain of adjacent commands returns to the level
+    // that declares them, which the depth of the name tells
+    let mut stack: Vec<&'a OptSpec> = vec![spec];
     for u in &units[..upto.min(units.len())] {
         if let UKind::CmdName { id, .. } = &u.kind {
+            stack.truncate((u.depth + 1).min(stack.len()));
+            let cur = *stack.last().unwrap();
             let mut cmds = Vec::new();
             cur.root.level_cmds(&mut cmds);
             if let Some(c) = cmds.into_iter().find(|c| c.id == *id) {
-                cur = &c.opts;
+                stack.push(&c.opts);
             }
+        } else {
+            // an item of an outer level after a block of an adjacent command
+            stack.truncate((u.depth + 1).min(stack.len()));
         }
     }
-    cur
+    stack.last().unwrap()
 }
 
